@@ -311,7 +311,7 @@ def compare_with_model(outdir):
                                    "kind": "internal strategy != Impl model"})
             continue
         if s_obs != spec or b_obs != spec:
-            mism.append({"case": case, "strcase": s_obs, "bytcase": b_obs, "spec": spec, "impl_model": m.get("I")})
+            mism.append({"case": case, "strcase": s_obs, "bytcase": b_obs, "spec": spec, "impl_model": m.get("I"), "go_ref": ref})
         elif "I" in m and m["I"] != spec and "|" not in m["I"]:
             # the structure-faithful model disagrees with Spec while the code agrees:
             # a defect of the model (machinery), never a violation
